@@ -228,7 +228,9 @@ int skinny128_ctr_init(Skinny128CTR_t *ctr)
         ctr->ctx = 0;
         return 0;
     }
-    return 1;
+
+    /* Start from the all-zeroes counter block */
+    return (*(vtable->set_counter))(ctr, 0, 0);
 }
 
 void skinny128_ctr_cleanup(Skinny128CTR_t *ctr)
